@@ -68,6 +68,14 @@ def fail {α} (e : Err) : Dec α := fun _ => ⟨0, .err e⟩
 def panicD {α} : Dec α := fun _ => ⟨0, .panic⟩
 /-- charge `n` allocation units -/
 def tick (n : Nat) : Dec Unit := fun bs => ⟨n, .ok () bs⟩
+/-- an allocation of `a` units made before `m` runs (`x := new(T); x.readFrom(r)`) -/
+def charge {α} (a : Nat) (m : Dec α) : Dec α := fun bs => ⟨a + (m bs).alloc, (m bs).out⟩
+/-- an allocation of `a` units made once `m` has succeeded -/
+def chargeOk {α} (a : Nat) (m : Dec α) : Dec α := fun bs =>
+  match m bs with
+  | ⟨k, .ok x r⟩ => ⟨k + a, .ok x r⟩
+  | ⟨k, .err e⟩ => ⟨k, .err e⟩
+  | ⟨k, .panic⟩ => ⟨k, .panic⟩
 /-- number of unread bytes (`Reader.Len`) -/
 def remaining : Dec Nat := fun bs => ⟨0, .ok bs.length bs⟩
 
@@ -169,8 +177,7 @@ def readHash : Dec Bytes := fun bs =>
 def readN {α} (a : Nat) (f : Dec α) : Nat → Dec (List α)
   | 0 => pure []
   | n + 1 => do
-    tick a
-    let x ← f
+    let x ← charge a f
     let xs ← readN a f n
     pure (x :: xs)
 
@@ -371,8 +378,7 @@ def aEntry : Nat := 512
 
 def decSCFields : Dec SpendCommitment := do
   let src ← readHash
-  let asset ← readHash
-  tick 32
+  let asset ← charge 32 readHash
   let amount ← readVarint63
   let pos ← readVarint63
   let vm ← readVarint63
@@ -391,10 +397,14 @@ inductive Commit
   | coinbase (arb : Bytes)
   | veto (sc : SpendCommitment) (suffix : Bytes) (vote : Bytes)
 
-/-- `parseTypedInput` followed by `readCommitment` -/
-def decCommit : Dec Commit := do
+/-- the type byte of `parseTypedInput` (must be a key of `inputTypeMap`) -/
+def readInType : Dec UInt8 := do
   let t ← readByte
-  tick aTyped
+  if t > 3 then fail .inputType else pure t
+
+/-- `parseTypedInput` (allocating the typed input) followed by `readCommitment` -/
+def decCommit : Dec Commit := do
+  let t ← chargeOk aTyped readInType
   if t = 0 then do
     let nonce ← readVarstr31
     let asset ← readHash
@@ -443,8 +453,7 @@ def decInput (H : Bytes → Bytes) : Dec TxInput := do
   pure ⟨av, t, cs, ws⟩
 
 def decOC : Dec OutputCommitment := do
-  let asset ← readHash
-  tick 32
+  let asset ← charge 32 readHash
   let amount ← readVarint63
   let vm ← readVarint63
   if vm ≠ 1 then fail .vmVersion else do
@@ -464,12 +473,15 @@ def decOutBody (t : UInt8) (av : Nat) : Dec (TypedOutput × Option OutputCommitm
     else (pure none : Dec (Option OutputCommitment)))
   pure (typed, oc)
 
+/-- the type byte of `parseTypedOutput` (must be a key of `outputTypeMap`) -/
+def readOutType : Dec UInt8 := do
+  let t ← readByte
+  if t ≠ 0 ∧ t ≠ 1 then fail .outputType else pure t
+
 /-- `TxOutput.readFrom` -/
 def decOutput : Dec TxOutput := do
   let av ← readVarint63
-  let t ← readByte
-  if t ≠ 0 ∧ t ≠ 1 then fail .outputType else do
-  tick 32
+  let t ← chargeOk 32 readOutType
   let ((typed, oc), cs) ← readExt (decOutBody t av)
   let _ ← readVarstr31
   pure ⟨av, oc, cs, typed⟩
@@ -594,6 +606,14 @@ def headerFromText : Bytes → Res BlockHeader :=
 /-- `Block.UnmarshalText` -/
 def blockFromText (H : Bytes → Bytes) : Bytes → Res (UInt8 × Block) :=
   fromText (do let b ← decBlock H; noTrailing b)
+
+/-- `decodeMessage` of the two reactors (`netsync/chainmgr/protocol_reactor.go`,
+    `netsync/consensusmgr/consensus_msg.go`): `msgType = bz[0]` comes before anything else;
+    the go-wire framing that follows is third-party and enters as the parameter `wire` -/
+def decodeMessage {α} (wire : Dec α) : Dec α := fun bz =>
+  match bz with
+  | [] => ⟨0, .panic⟩
+  | _ :: _ => wire bz
 
 def txToText (H : Bytes → Bytes) (tx : TxData) : Bytes := hexEncode (encTx H tx)
 def headerToText (h : BlockHeader) : Bytes := hexEncode (encHeader 1 h)
